@@ -820,7 +820,18 @@ class TransferManager(BaseManager):
             was received
         :param request: transfer request object for the given transfer
         """
-        await transfer.state.initialize()
+        if not await transfer.state.initialize():
+            # The transfer was aborted, paused, ... between the request being
+            # accepted and this task getting to run: refuse the request like
+            # the message handler does for a transfer that is in such a state
+            peer_connection.queue_message(
+                PeerTransferReply.Request(
+                    ticket=request.ticket,
+                    allowed=False,
+                    reason=FailReason.CANCELLED
+                )
+            )
+            return
 
         transfer.filesize = request.filesize
 
